@@ -246,10 +246,15 @@ impl<'a> Shrinker<'a> {
             c.threads.remove(t);
             out.push(c);
         }
-        if case.fault.is_some() {
+        if let Some(f) = &case.fault {
             let mut c = case.clone();
             c.fault = None;
             out.push(c);
+            if f.k > 0 {
+                let mut c = case.clone();
+                c.fault.as_mut().unwrap().k = f.k - 1;
+                out.push(c);
+            }
         }
         for i in (0..case.post.len()).rev() {
             let mut c = case.clone();
